@@ -25,10 +25,12 @@ import (
 	sdk "github.com/cosmos/cosmos-sdk/types"
 	"pgregory.net/rapid"
 
+	"github.com/comdex-official/comdex/x/esm"
 	esmtypes "github.com/comdex-official/comdex/x/esm/types"
 	liqv2types "github.com/comdex-official/comdex/x/liquidationsV2/types"
 	lockertypes "github.com/comdex-official/comdex/x/locker/types"
 	vaulttypes "github.com/comdex-official/comdex/x/vault/types"
+	abci "github.com/cometbft/cometbft/abci/types"
 
 	"github.com/comdex-official/comdex/app/wasm/bindings"
 
@@ -172,6 +174,20 @@ func c14Apply(m *vMachine, ctl c14Ctl) {
 			tw, _ := c.App.MarketKeeper.GetTwa(c.Ctx, cfg.Assets[ai].ID)
 			c.SetPrice(cfg.Assets[ai].ID, tw.Twa, false)
 		}
+	case "esm-inactive":
+		// feeds go off, emergency shutdown is executed, and the shutdown hook has run (it takes the price snapshot that
+		// vault checks use from then on, of active feeds only): an operation that needs an inactive feed must still fail
+		for _, ai := range ctl.Inactive {
+			tw, _ := c.App.MarketKeeper.GetTwa(c.Ctx, cfg.Assets[ai].ID)
+			c.SetPrice(cfg.Assets[ai].ID, tw.Twa, false)
+		}
+		st := esmtypes.ESMStatus{AppId: m.apps[ctl.App], Executor: c.Accs[0].Addr.String(), Status: true,
+			StartTime: c.Ctx.BlockTime().Add(-time.Minute), EndTime: c.Ctx.BlockTime().Add(time.Hour)}
+		c.App.EsmKeeper.SetESMStatus(c.Ctx, st)
+		func() {
+			defer func() { _ = recover() }()
+			esm.BeginBlocker(c.Ctx, abci.RequestBeginBlock{}, c.App.EsmKeeper, c.App.AssetKeeper)
+		}()
 	}
 }
 
@@ -267,6 +283,9 @@ func c14Run(t rec.TB, r *rec.Rec, cs *c14Case, m *vMachine) {
 			}
 		case "inactive":
 			must = prod >= 0 && c14NeedsPrice[op.K] && m.c14NeedsInactive(prod, ctl)
+		case "esm-inactive":
+			must = prod >= 0 && c14NeedsPrice[op.K] && m.c14NeedsInactive(prod, ctl)
+			must = must || (app == ctl.App && c14EsmMints[op.K])
 		}
 		if !must {
 			r.Class("not-covered-by-control:" + ctl.Kind)
@@ -382,7 +401,7 @@ func c14Run(t rec.TB, r *rec.Rec, cs *c14Case, m *vMachine) {
 		if ctl.Kind == "breaker" && onApp[id] > 0 {
 			r.Fail(t, "C14.sweep-liquidates-under-breaker", "sweep", cs, "with the breaker of app %d on, the sweep locked %d vault(s) of that app: %v", id, onApp[id], onFresh)
 		}
-	case "inactive":
+	case "inactive", "esm-inactive":
 		for pi := range cfg.Products {
 			if !m.c14NeedsInactive(pi, ctl) {
 				continue
@@ -425,12 +444,15 @@ func TestC14_controls(t *testing.T) {
 				m.apply(i, op)
 			}
 			cfg := &vc.Cfg
-			ctl := c14Ctl{Kind: rapid.SampledFrom([]string{"breaker", "breaker", "esm", "esm", "inactive", "inactive"}).Draw(rt, "ctl")}
+			ctl := c14Ctl{Kind: rapid.SampledFrom([]string{"breaker", "breaker", "esm", "esm", "inactive", "inactive", "esm-inactive"}).Draw(rt, "ctl")}
 			switch ctl.Kind {
 			case "breaker", "esm":
 				ctl.App = rapid.IntRange(0, cfg.NApps-1).Draw(rt, "ctlapp")
 				ctl.After = rapid.Bool().Draw(rt, "after")
-			case "inactive":
+			case "inactive", "esm-inactive":
+				if ctl.Kind == "esm-inactive" {
+					ctl.App = rapid.IntRange(0, cfg.NApps-1).Draw(rt, "ctlapp")
+				}
 				for ai := range cfg.Assets {
 					if rapid.IntRange(0, 2).Draw(rt, fmt.Sprintf("inactive%d", ai)) == 0 {
 						ctl.Inactive = append(ctl.Inactive, ai)
